@@ -1,5 +1,8 @@
 import TemprenModel.Lemmas.PipelineLemmas
 import TemprenModel.Lemmas.FSLemmas
+import TemprenModel.Lemmas.SimLemmas
+import TemprenModel.Props.C04
+import TemprenModel.Props.C06
 /-!
 # C05 — A dry run predicts exactly what the real run then does
 
@@ -23,23 +26,110 @@ def ErrSim : Option RenErr → Option RenErr → Prop
   | some a, some b => a.isFileExists = b.isFileExists ∧ outcomeOfErr a = outcomeOfErr b ∧ (a = .fileExists ↔ b = .fileExists)
   | _, _ => False
 
-structure Simulation (R₁ : Renamer σ₁) (R₂ : Renamer σ₂) (S : σ₁ → σ₂ → Prop) : Prop where
-  call : ∀ s₁ s₂ dir src dst ov, S s₁ s₂ →
+/-- what a path "virtually exists" means in the dry-run state -/
+def vexists (d : DryState) (k : APath) : Bool := (lexists d.base k || d.created.contains k) && !d.removed.contains k
+
+/-- a simulation between two renamers, required only for the calls that satisfy the guard `G`
+    (directory, source, destination) -/
+structure SimulationOn (R₁ : Renamer σ₁) (R₂ : Renamer σ₂) (S : σ₁ → σ₂ → Prop)
+    (G : APath → PurePath → PurePath → Prop) : Prop where
+  call : ∀ s₁ s₂ dir src dst ov, S s₁ s₂ → G dir src dst →
     S (R₁.call s₁ dir src dst ov).1 (R₂.call s₂ dir src dst ov).1 ∧
     ErrSim (R₁.call s₁ dir src dst ov).2 (R₂.call s₂ dir src dst ov).2
   view : ∀ s₁ s₂ dir p, S s₁ s₂ → contained (R₁.view s₁) dir p = contained (R₂.view s₂) dir p
 
+/-- the unguarded simulation -/
+abbrev Simulation (R₁ : Renamer σ₁) (R₂ : Renamer σ₂) (S : σ₁ → σ₂ → Prop) : Prop :=
+  SimulationOn R₁ R₂ S (fun _ _ _ => True)
+
 def RunSim (S : σ₁ → σ₂ → Prop) (r₁ : Run σ₁) (r₂ : Run σ₂) : Prop := S r₁.st r₂.st ∧ r₁.events = r₂.events
 
+/-- the answers left after a conflict has been resolved are among those there were before -/
+theorem resolveConflict_answers {σ : Type} (R : Renamer σ) (r : Run σ) (dir : APath) (src dst : PurePath)
+    (strategy : Strategy) (as : List Answer) : ∀ a ∈ (resolveConflict R r dir src dst strategy as).2.1, a ∈ as := by
+  cases strategy with
+  | stop => intro a h; exact h
+  | ignore => intro a h; exact h
+  | override => simp only [resolveConflict]; split <;> (intro a h; exact h)
+  | manual =>
+    cases as with
+    | nil => intro a h; exact h
+    | cons x rest =>
+      cases x with
+      | stop => intro a h; exact List.mem_cons_of_mem _ h
+      | ignore => intro a h; exact List.mem_cons_of_mem _ h
+      | override => simp only [resolveConflict]; split <;> (intro a h; exact List.mem_cons_of_mem _ h)
+      | custom p =>
+        simp only [resolveConflict]
+        split
+        · intro a h; exact List.mem_cons_of_mem _ h
+        · intro a h; exact List.mem_cons_of_mem _ h
+        · intro a h; exact List.mem_cons_of_mem _ h
+        · split <;> (intro a h; exact List.mem_cons_of_mem _ h)
+
+/-- every deferred rename stems from a file of the list and a path generated for some index,
+    different from the file's own path -/
+theorem firstPass_backlog {σ : Type} (R : Renamer σ) (gen : Nat → Gen) :
+    ∀ (files : List FileRec) (i : Nat) (r : Run σ) (bl : Backlog),
+      ∀ x ∈ (firstPass R gen i files r bl).2.1,
+        x ∈ bl ∨ ∃ f ∈ files, ∃ j, gen j = .path x.2.2 ∧ x.2.2 ≠ f.rel ∧ x.1 = f.inputDir ∧ x.2.1 = f.rel := by
+  intro files
+  induction files with
+  | nil => intro i r bl x hx; simp [firstPass] at hx; exact Or.inl hx
+  | cons f rest ih =>
+    intro i r bl x hx
+    rw [firstPass] at hx
+    have lift : (x ∈ bl ∨ ∃ f' ∈ rest, ∃ j, gen j = .path x.2.2 ∧ x.2.2 ≠ f'.rel ∧ x.1 = f'.inputDir ∧ x.2.1 = f'.rel) →
+        (x ∈ bl ∨ ∃ f' ∈ f :: rest, ∃ j, gen j = .path x.2.2 ∧ x.2.2 ≠ f'.rel ∧ x.1 = f'.inputDir ∧ x.2.1 = f'.rel) := by
+      rintro (h | ⟨f', hf', h⟩)
+      · exact Or.inl h
+      · exact Or.inr ⟨f', List.mem_cons_of_mem _ hf', h⟩
+    cases hg : gen i with
+    | invalidName => simp only [hg] at hx; exact Or.inl hx
+    | error => simp only [hg] at hx; exact Or.inl hx
+    | path p =>
+      simp only [hg] at hx
+      by_cases hp : p = f.rel
+      · simp only [hp, if_true] at hx; exact lift (ih _ _ _ x hx)
+      · simp only [hp, if_false] at hx
+        cases hc : contained (R.view r.st) f.inputDir p with
+        | error e => rw [hc] at hx; cases e <;> exact Or.inl hx
+        | ok b =>
+          rw [hc] at hx
+          cases b with
+          | false => exact Or.inl hx
+          | true =>
+            simp only at hx
+            cases h1 : r.call R f.inputDir f.rel p false with
+            | mk r' e =>
+              rw [h1] at hx
+              cases e with
+              | none => exact lift (ih _ _ _ x hx)
+              | some e =>
+                simp only at hx
+                by_cases he : e.isFileExists = true
+                · simp only [he, if_true] at hx
+                  rcases ih _ _ _ x hx with h | h
+                  · rw [List.mem_append, List.mem_singleton] at h
+                    rcases h with h | h
+                    · exact Or.inl h
+                    · subst h
+                      exact Or.inr ⟨f, List.mem_cons_self, i, hg, hp, rfl, rfl⟩
+                  · exact lift (Or.inr h)
+                · simp only [he, Bool.false_eq_true, if_false] at hx
+                  exact Or.inl hx
+
 section
-variable {R₁ : Renamer σ₁} {R₂ : Renamer σ₂} {S : σ₁ → σ₂ → Prop} (sim : Simulation R₁ R₂ S)
+variable {R₁ : Renamer σ₁} {R₂ : Renamer σ₂} {S : σ₁ → σ₂ → Prop} {G : APath → PurePath → PurePath → Prop}
+  (sim : SimulationOn R₁ R₂ S G)
 include sim
 
-theorem call_sim (r₁ : Run σ₁) (r₂ : Run σ₂) (h : RunSim S r₁ r₂) (dir : APath) (src dst : PurePath) (ov : Bool) :
+theorem call_sim (r₁ : Run σ₁) (r₂ : Run σ₂) (h : RunSim S r₁ r₂) (dir : APath) (src dst : PurePath) (ov : Bool)
+    (hg : G dir src dst) :
     RunSim S (r₁.call R₁ dir src dst ov).1 (r₂.call R₂ dir src dst ov).1 ∧
     ErrSim (r₁.call R₁ dir src dst ov).2 (r₂.call R₂ dir src dst ov).2 := by
   obtain ⟨hs, he⟩ := h
-  have hc := sim.call r₁.st r₂.st dir src dst ov hs
+  have hc := sim.call r₁.st r₂.st dir src dst ov hs hg
   unfold Run.call
   cases h1 : R₁.call r₁.st dir src dst ov with
   | mk s1' e1 =>
@@ -54,14 +144,17 @@ theorem call_sim (r₁ : Run σ₁) (r₂ : Run σ₂) (h : RunSim S r₁ r₂) 
       · exact ⟨⟨hc.1, he⟩, hc.2⟩
 
 theorem firstPass_sim (gen : Nat → Gen) :
-    ∀ (files : List FileRec) (i : Nat) (r₁ : Run σ₁) (r₂ : Run σ₂) (bl : Backlog), RunSim S r₁ r₂ →
+    ∀ (files : List FileRec) (i : Nat) (r₁ : Run σ₁) (r₂ : Run σ₂) (bl : Backlog),
+      (∀ f ∈ files, ∀ j p, gen j = .path p → p ≠ f.rel → G f.inputDir f.rel p) → RunSim S r₁ r₂ →
       RunSim S (firstPass R₁ gen i files r₁ bl).1 (firstPass R₂ gen i files r₂ bl).1 ∧
       (firstPass R₁ gen i files r₁ bl).2 = (firstPass R₂ gen i files r₂ bl).2 := by
   intro files
   induction files with
-  | nil => intro i r₁ r₂ bl h; simp [firstPass, h]
+  | nil => intro i r₁ r₂ bl _ h; simp [firstPass, h]
   | cons f rest ih =>
-    intro i r₁ r₂ bl h
+    intro i r₁ r₂ bl hG h
+    have hGrest : ∀ f' ∈ rest, ∀ j p, gen j = .path p → p ≠ f'.rel → G f'.inputDir f'.rel p :=
+      fun f' hf' => hG f' (List.mem_cons_of_mem _ hf')
     rw [firstPass, firstPass]
     cases hg : gen i with
     | invalidName => exact ⟨h, rfl⟩
@@ -69,7 +162,7 @@ theorem firstPass_sim (gen : Nat → Gen) :
     | path p =>
       simp only
       by_cases hp : p = f.rel
-      · simp only [hp, if_true]; exact ih _ _ _ _ h
+      · simp only [hp, if_true]; exact ih _ _ _ _ hGrest h
       · simp only [hp, if_false]
         rw [sim.view r₁.st r₂.st f.inputDir p h.1]
         cases hc : contained (R₂.view r₂.st) f.inputDir p with
@@ -79,7 +172,7 @@ theorem firstPass_sim (gen : Nat → Gen) :
           | false => exact ⟨h, rfl⟩
           | true =>
             simp only
-            have hcs := call_sim sim r₁ r₂ h f.inputDir f.rel p false
+            have hcs := call_sim sim r₁ r₂ h f.inputDir f.rel p false (hG f List.mem_cons_self i p hg hp)
             cases h1 : r₁.call R₁ f.inputDir f.rel p false with
             | mk r1' e1 =>
               cases h2 : r₂.call R₂ f.inputDir f.rel p false with
@@ -87,22 +180,22 @@ theorem firstPass_sim (gen : Nat → Gen) :
                 rw [h1, h2] at hcs
                 simp only at hcs
                 cases e1 <;> cases e2 <;> simp only [ErrSim] at hcs
-                · exact ih _ _ _ _ hcs.1
+                · exact ih _ _ _ _ hGrest hcs.1
                 · exact absurd hcs.2 (by simp)
                 · exact absurd hcs.2 (by simp)
                 · rename_i a b
                   obtain ⟨hrs, hfe, hout, _⟩ := hcs
                   by_cases hb : b.isFileExists = true
                   · have ha : a.isFileExists = true := by rw [hfe]; exact hb
-                    simp only [ha, hb, if_true]; exact ih _ _ _ _ hrs
+                    simp only [ha, hb, if_true]; exact ih _ _ _ _ hGrest hrs
                   · have ha : ¬ a.isFileExists = true := by rw [hfe]; exact hb
                     simp only [ha, hb, Bool.false_eq_true, if_false]; exact ⟨hrs, by rw [hout]⟩
 
 theorem resolveConflict_sim (r₁ : Run σ₁) (r₂ : Run σ₂) (h : RunSim S r₁ r₂) (dir : APath) (src dst : PurePath)
-    (strategy : Strategy) (as : List Answer) :
+    (strategy : Strategy) (as : List Answer) (hg : G dir src dst) (hcust : ∀ q, Answer.custom q ∈ as → G dir src q) :
     RunSim S (resolveConflict R₁ r₁ dir src dst strategy as).1 (resolveConflict R₂ r₂ dir src dst strategy as).1 ∧
     (resolveConflict R₁ r₁ dir src dst strategy as).2 = (resolveConflict R₂ r₂ dir src dst strategy as).2 := by
-  have key : ∀ (d : PurePath) (ov : Bool) (rest : List Answer),
+  have key : ∀ (d : PurePath) (ov : Bool) (rest : List Answer), G dir src d →
       RunSim S (match r₁.call R₁ dir src d ov with
         | (r', none) => (r', rest, (none : Option Outcome))
         | (r', some e) => (r', rest, some (if e = RenErr.fileExists then Outcome.crash else outcomeOfErr e))).1
@@ -115,8 +208,8 @@ theorem resolveConflict_sim (r₁ : Run σ₁) (r₂ : Run σ₂) (h : RunSim S 
       (match r₂.call R₂ dir src d ov with
         | (r', none) => (r', rest, (none : Option Outcome))
         | (r', some e) => (r', rest, some (if e = RenErr.fileExists then Outcome.crash else outcomeOfErr e))).2 := by
-    intro d ov rest
-    have hcs := call_sim sim r₁ r₂ h dir src d ov
+    intro d ov rest hgd
+    have hcs := call_sim sim r₁ r₂ h dir src d ov hgd
     cases h1 : r₁.call R₁ dir src d ov with
     | mk r1' e1 =>
       cases h2 : r₂.call R₂ dir src d ov with
@@ -139,7 +232,7 @@ theorem resolveConflict_sim (r₁ : Run σ₁) (r₂ : Run σ₂) (h : RunSim S 
   cases strategy with
   | stop => exact ⟨h, rfl⟩
   | ignore => exact ⟨h, rfl⟩
-  | override => simp only [resolveConflict]; exact key dst true as
+  | override => simp only [resolveConflict]; exact key dst true as hg
   | manual =>
     cases as with
     | nil => exact ⟨h, rfl⟩
@@ -147,7 +240,7 @@ theorem resolveConflict_sim (r₁ : Run σ₁) (r₂ : Run σ₂) (h : RunSim S 
       cases a with
       | stop => exact ⟨h, rfl⟩
       | ignore => exact ⟨h, rfl⟩
-      | override => simp only [resolveConflict]; exact key dst true rest
+      | override => simp only [resolveConflict]; exact key dst true rest hg
       | custom p =>
         simp only [resolveConflict]
         rw [sim.view r₁.st r₂.st dir p h.1]
@@ -156,20 +249,27 @@ theorem resolveConflict_sim (r₁ : Run σ₁) (r₂ : Run σ₂) (h : RunSim S 
         | ok b =>
           cases b with
           | false => exact ⟨h, rfl⟩
-          | true => exact key p false rest
+          | true => exact key p false rest (hcust p List.mem_cons_self)
 
 theorem secondPass_sim (strategy : Strategy) :
-    ∀ (bl : List (APath × PurePath × PurePath)) (r₁ : Run σ₁) (r₂ : Run σ₂) (as : List Answer), RunSim S r₁ r₂ →
+    ∀ (bl : List (APath × PurePath × PurePath)) (r₁ : Run σ₁) (r₂ : Run σ₂) (as : List Answer),
+      (∀ x ∈ bl, G x.1 x.2.1 x.2.2 ∧ ∀ q, Answer.custom q ∈ as → G x.1 x.2.1 q) → RunSim S r₁ r₂ →
       RunSim S (secondPass R₁ strategy bl r₁ as).1 (secondPass R₂ strategy bl r₂ as).1 ∧
       (secondPass R₁ strategy bl r₁ as).2 = (secondPass R₂ strategy bl r₂ as).2 := by
   intro bl
   induction bl with
-  | nil => intro r₁ r₂ as h; simp [secondPass, h]
+  | nil => intro r₁ r₂ as _ h; simp [secondPass, h]
   | cons x rest ih =>
-    intro r₁ r₂ as h
+    intro r₁ r₂ as hbl h
     obtain ⟨dir, src, dst⟩ := x
+    have hx := hbl (dir, src, dst) List.mem_cons_self
+    have hrest : ∀ as' : List Answer, (∀ a ∈ as', a ∈ as) →
+        ∀ x ∈ rest, G x.1 x.2.1 x.2.2 ∧ ∀ q, Answer.custom q ∈ as' → G x.1 x.2.1 q := by
+      intro as' hsub x hxm
+      have := hbl x (List.mem_cons_of_mem _ hxm)
+      exact ⟨this.1, fun q hq => this.2 q (hsub _ hq)⟩
     rw [secondPass, secondPass]
-    have hcs := call_sim sim r₁ r₂ h dir src dst false
+    have hcs := call_sim sim r₁ r₂ h dir src dst false hx.1
     cases h1 : r₁.call R₁ dir src dst false with
     | mk r1' e1 =>
       cases h2 : r₂.call R₂ dir src dst false with
@@ -177,7 +277,7 @@ theorem secondPass_sim (strategy : Strategy) :
         rw [h1, h2] at hcs
         simp only at hcs
         cases e1 <;> cases e2 <;> simp only [ErrSim] at hcs
-        · exact ih _ _ _ hcs.1
+        · exact ih _ _ _ (hrest as (fun _ h => h)) hcs.1
         · exact absurd hcs.2 (by simp)
         · exact absurd hcs.2 (by simp)
         · rename_i a b
@@ -185,37 +285,44 @@ theorem secondPass_sim (strategy : Strategy) :
           by_cases hb : b.isFileExists = true
           · have ha : a.isFileExists = true := by rw [hfe]; exact hb
             simp only [ha, hb, if_true]
-            have hr := resolveConflict_sim sim r1' r2' hrs dir src dst strategy as
+            have hr := resolveConflict_sim sim r1' r2' hrs dir src dst strategy as hx.1 hx.2
+            have hsub := resolveConflict_answers R₁ r1' dir src dst strategy as
             cases h3 : resolveConflict R₁ r1' dir src dst strategy as with
             | mk q1 t1 =>
               cases h4 : resolveConflict R₂ r2' dir src dst strategy as with
               | mk q2 t2 =>
                 rw [h3, h4] at hr
-                simp only at hr
+                rw [h3] at hsub
+                simp only at hr hsub
                 obtain ⟨hq, ht⟩ := hr
                 subst ht
                 obtain ⟨as', o⟩ := t1
                 cases o with
-                | none => exact ih _ _ _ hq
+                | none => exact ih _ _ _ (hrest as' hsub) hq
                 | some o => exact ⟨hq, rfl⟩
           · have ha : ¬ a.isFileExists = true := by rw [hfe]; exact hb
             simp only [ha, hb, Bool.false_eq_true, if_false]; exact ⟨hrs, by rw [hout]⟩
 
-/-- **C05 (refinement)**: renamers in simulation make the pipeline report the same renames, in the
-    same order, with the same override markers, and end the same way -/
-theorem runs_agree (s₁ : σ₁) (s₂ : σ₂) (h0 : S s₁ s₂) (files : List FileRec) (gen : Nat → Gen)
-    (strategy : Strategy) (answers : List Answer) :
+/-- **C05 (refinement, guarded)**: if the renamers are in simulation for all calls satisfying `G`, and every
+    call the plan and the answers can give rise to satisfies `G`, the two runs report the same renames, in
+    the same order, with the same override markers, and end the same way -/
+theorem runs_agree_on (s₁ : σ₁) (s₂ : σ₂) (h0 : S s₁ s₂) (files : List FileRec) (gen : Nat → Gen)
+    (strategy : Strategy) (answers : List Answer)
+    (hplan : ∀ f ∈ files, ∀ j p, gen j = .path p → p ≠ f.rel → G f.inputDir f.rel p)
+    (hcust : ∀ f ∈ files, ∀ q, Answer.custom q ∈ answers → G f.inputDir f.rel q) :
     (execute R₁ s₁ files gen strategy answers).1.events = (execute R₂ s₂ files gen strategy answers).1.events ∧
     (execute R₁ s₁ files gen strategy answers).2 = (execute R₂ s₂ files gen strategy answers).2 ∧
     S (execute R₁ s₁ files gen strategy answers).1.st (execute R₂ s₂ files gen strategy answers).1.st := by
   unfold execute
-  have h1 := firstPass_sim sim gen files 0 { st := s₁ } { st := s₂ } [] ⟨h0, rfl⟩
+  have h1 := firstPass_sim sim gen files 0 { st := s₁ } { st := s₂ } [] hplan ⟨h0, rfl⟩
+  have hbl := firstPass_backlog R₁ gen files 0 { st := s₁ } []
   cases f1 : firstPass R₁ gen 0 files { st := s₁ } [] with
   | mk r1 t1 =>
     cases f2 : firstPass R₂ gen 0 files { st := s₂ } [] with
     | mk r2 t2 =>
       rw [f1, f2] at h1
-      simp only at h1
+      rw [f1] at hbl
+      simp only at h1 hbl
       obtain ⟨hr, ht⟩ := h1
       subst ht
       obtain ⟨bl, o⟩ := t1
@@ -223,7 +330,13 @@ theorem runs_agree (s₁ : σ₁) (s₂ : σ₂) (h0 : S s₁ s₂) (files : Lis
       | some o => exact ⟨hr.2, rfl, hr.1⟩
       | none =>
         simp only
-        have h2 := secondPass_sim sim strategy bl.reverse r1 r2 answers hr
+        have hblG : ∀ x ∈ bl.reverse, G x.1 x.2.1 x.2.2 ∧ ∀ q, Answer.custom q ∈ answers → G x.1 x.2.1 q := by
+          intro x hx
+          rcases hbl x (List.mem_reverse.mp hx) with h | ⟨f, hf, j, hj, hne, hd, hs⟩
+          · simp at h
+          · rw [hd, hs]
+            exact ⟨hplan f hf j _ hj hne, hcust f hf⟩
+        have h2 := secondPass_sim sim strategy bl.reverse r1 r2 answers hblG hr
         cases g1 : secondPass R₁ strategy bl.reverse r1 answers with
         | mk q1 o1 =>
           cases g2 : secondPass R₂ strategy bl.reverse r2 answers with
@@ -237,8 +350,15 @@ theorem runs_agree (s₁ : σ₁) (s₂ : σ₂) (h0 : S s₁ s₂) (files : Lis
             | none => exact ⟨hq.2, rfl, hq.1⟩
 end
 
-/-- what a path "virtually exists" means in the dry-run state -/
-def vexists (d : DryState) (k : APath) : Bool := (lexists d.base k || d.created.contains k) && !d.removed.contains k
+/-- **C05 (refinement)**: renamers in (unguarded) simulation make the pipeline report the same renames, in
+    the same order, with the same override markers, and end the same way -/
+theorem runs_agree {R₁ : Renamer σ₁} {R₂ : Renamer σ₂} {S : σ₁ → σ₂ → Prop} (sim : Simulation R₁ R₂ S)
+    (s₁ : σ₁) (s₂ : σ₂) (h0 : S s₁ s₂) (files : List FileRec) (gen : Nat → Gen)
+    (strategy : Strategy) (answers : List Answer) :
+    (execute R₁ s₁ files gen strategy answers).1.events = (execute R₂ s₂ files gen strategy answers).1.events ∧
+    (execute R₁ s₁ files gen strategy answers).2 = (execute R₂ s₂ files gen strategy answers).2 ∧
+    S (execute R₁ s₁ files gen strategy answers).1.st (execute R₂ s₂ files gen strategy answers).1.st :=
+  runs_agree_on sim s₁ s₂ h0 files gen strategy answers (fun _ _ _ _ _ _ => trivial) (fun _ _ _ _ => trivial)
 
 /-- the effect of one successful dry-run call on virtual existence: afterwards the destination exists,
     the source (when different) does not, and every other path is exactly as before —
@@ -279,6 +399,240 @@ theorem dry_call_effect (sameDir : Bool) (d : DryState) (cwd : APath) (src dst :
         · exact absurd h hkd
       · intro h; exact ⟨Or.inl h, hks⟩
     rw [e1, e2]
+
+/-! ### the simulation premise, proved for name mode -/
+
+/-- the calls of a name-mode run: source `n` and destination `m` are different plain names in one directory
+    `dir/sp` all of whose ancestors are directories, and neither is (initially) a directory -/
+def NameCall (base : FS) (dir : APath) (src dst : PurePath) : Prop :=
+  ∃ (sp : List Name) (n m : Name),
+    src = ⟨false, sp ++ [n]⟩ ∧ dst = ⟨false, sp ++ [m]⟩ ∧ n ≠ m ∧ n ≠ dotdot ∧ m ≠ dotdot ∧ (∀ c ∈ sp, c ≠ dotdot) ∧
+    (∀ k, k ≤ sp.length → isDirAt base (dir ++ sp.take k) = true) ∧
+    isDirAt base (dir ++ sp ++ [n]) = false ∧ isDirAt base (dir ++ sp ++ [m]) = false
+
+/-- the state relation: the dry-run state is virtually what the real tree is (no fault is injected, no
+    symbolic links, the directories are those of the initial tree) -/
+def NameSim (base : FS) (s₁ : RealState) (s₂ : DryState) : Prop :=
+  s₂.base = base ∧ s₁.faultAt = none ∧ WF s₁.fs ∧ LinkFree s₁.fs ∧ LinkFree base ∧
+  (∀ p, isDirAt s₁.fs p = isDirAt base p) ∧ (∀ p, lexists s₁.fs p = vexists s₂ p)
+
+theorem linkFree_resolve {fs : FS} (h : LinkFree fs) (dir : APath) (p : PurePath) :
+    contained fs dir p = .ok (dir.isPrefixOf (lexNorm (if p.abs then [] else dir) p.parts)) := by
+  unfold contained resolvePath
+  rw [C06.resolveAux_nolinks (fun e he t => h e he t)]
+
+theorem errSim_destExists : ErrSim (some .destExists) (some .destExists) := ⟨rfl, rfl, Iff.rfl⟩
+
+theorem errSim_notFound : ErrSim (some (.os .ENOENT)) (some .notFound) :=
+  ⟨rfl, rfl, Iff.intro (fun h => RenErr.noConfusion h) (fun h => RenErr.noConfusion h)⟩
+
+theorem take_append_le {α : Type} (l : List α) (x : α) (k : Nat) (hk : k ≤ l.length) : (l ++ [x]).take k = l.take k := by
+  rw [List.take_append_of_le_length hk]
+
+/-- **the dry-run renamer simulates the in-place renamer** on every name-mode call -/
+theorem name_mode_simulation (base : FS) :
+    SimulationOn realNameRenamer dryRenamer (NameSim base) (NameCall base) where
+  view := by
+    intro s₁ s₂ dir p ⟨hb, _, _, hl1, hl2, _, _⟩
+    show contained s₁.fs dir p = contained s₂.base dir p
+    rw [hb, linkFree_resolve hl1, linkFree_resolve hl2]
+  call := by
+    intro s₁ s₂ dir src dst ov hS hG
+    obtain ⟨hb, hfault, hw, hl1, hl2, hdirs, hex⟩ := hS
+    obtain ⟨sp, n, m, rfl, rfl, hnm, hn, hm, hsp, hanc, hna, hnb⟩ := hG
+    have hab : dir ++ sp ++ [n] ≠ dir ++ sp ++ [m] := by
+      intro h; have := List.append_cancel_left h; simp at this; exact hnm this
+    have hplain : ∀ x : Name, x ≠ dotdot → ∀ c ∈ sp ++ [x], c ≠ dotdot := by
+      intro x hx c hc
+      rw [List.mem_append, List.mem_singleton] at hc
+      rcases hc with hc | hc
+      · exact hsp c hc
+      · rw [hc]; exact hx
+    have hwalk : ∀ x : Name, x ≠ dotdot → walkPath s₁.fs dir ⟨false, sp ++ [x]⟩ = .ok (dir ++ sp ++ [x]) := by
+      intro x hx
+      unfold walkPath
+      simp only [Bool.false_eq_true, if_false]
+      rw [walk_plain hl1 (sp ++ [x]) dir (hplain x hx)]
+      · simp
+      · intro k hk
+        have hk' : k ≤ sp.length := by simp at hk; omega
+        rw [take_append_le sp x k hk', hdirs]
+        exact hanc k hk'
+    have hkey : ∀ x : Name, x ≠ dotdot → absKey dir ⟨false, sp ++ [x]⟩ = dir ++ sp ++ [x] := by
+      intro x hx
+      unfold absKey
+      simp only [Bool.false_eq_true, if_false]
+      rw [lexNorm_plain _ _ (hplain x hx)]; simp
+    have hpar : parentOf ⟨false, sp ++ [n]⟩ = parentOf ⟨false, sp ++ [m]⟩ := by simp [parentOf]
+    have hlex : lexistsRel s₁.fs dir ⟨false, sp ++ [m]⟩ = lexists s₁.fs (dir ++ sp ++ [m]) := by
+      unfold lexistsRel; rw [hwalk m hm]
+    show NameSim base (fileRenamer s₁ dir ⟨false, sp ++ [n]⟩ ⟨false, sp ++ [m]⟩ ov).1
+          (dryRunRenamerWith true s₂ dir ⟨false, sp ++ [n]⟩ ⟨false, sp ++ [m]⟩ ov).1 ∧
+        ErrSim (fileRenamer s₁ dir ⟨false, sp ++ [n]⟩ ⟨false, sp ++ [m]⟩ ov).2
+          (dryRunRenamerWith true s₂ dir ⟨false, sp ++ [n]⟩ ⟨false, sp ++ [m]⟩ ov).2
+    have hS : NameSim base s₁ s₂ := ⟨hb, hfault, hw, hl1, hl2, hdirs, hex⟩
+    -- the destination test
+    by_cases hE : (!ov && lexists s₁.fs (dir ++ sp ++ [m])) = true
+    · have h1 : fileRenamer s₁ dir ⟨false, sp ++ [n]⟩ ⟨false, sp ++ [m]⟩ ov = (s₁, some .destExists) := by
+        unfold fileRenamer; rw [hlex, if_pos hE]
+      have h2 : dryRunRenamerWith true s₂ dir ⟨false, sp ++ [n]⟩ ⟨false, sp ++ [m]⟩ ov = (s₂, some .destExists) := by
+        unfold dryRunRenamerWith
+        simp only [hkey m hm]
+        have : ((lexists s₂.base (dir ++ sp ++ [m]) || s₂.created.contains (dir ++ sp ++ [m])) &&
+            !s₂.removed.contains (dir ++ sp ++ [m]) && !ov) = true := by
+          have := hex (dir ++ sp ++ [m]); unfold vexists at this
+          rw [← this]
+          cases ov <;> simp_all
+        rw [if_pos this]
+      rw [h1, h2]; exact ⟨hS, errSim_destExists⟩
+    · have hreal : fileRenamer s₁ dir ⟨false, sp ++ [n]⟩ ⟨false, sp ++ [m]⟩ ov =
+          renameRel s₁ dir ⟨false, sp ++ [n]⟩ ⟨false, sp ++ [m]⟩ := by
+        unfold fileRenamer; rw [hlex, if_neg hE, if_neg (by simpa using hpar)]
+      have hd1 : ((lexists s₂.base (dir ++ sp ++ [m]) || s₂.created.contains (dir ++ sp ++ [m])) &&
+            !s₂.removed.contains (dir ++ sp ++ [m]) && !ov) = false := by
+        have := hex (dir ++ sp ++ [m]); unfold vexists at this
+        rw [← this]
+        cases ov <;> simp_all
+      have hd2 : (true && decide (parentOf (⟨false, sp ++ [n]⟩ : PurePath) ≠ parentOf ⟨false, sp ++ [m]⟩)) = false := by
+        simp [hpar]
+      have ha0 : dir ++ sp ++ [n] ≠ [] := by simp
+      rw [hreal]
+      unfold renameRel
+      rw [hwalk n hn, hwalk m hm]
+      simp only
+      unfold RealState.prim
+      simp only [hfault]
+      rw [if_neg (by simp)]
+      cases hfa : s₁.fs.find (dir ++ sp ++ [n]) with
+      | none =>
+        have hren : renameAbs s₁.fs (dir ++ sp ++ [n]) (dir ++ sp ++ [m]) = .error .ENOENT := by
+          unfold renameAbs; rw [hfa]
+        rw [hren]
+        have hsrc : vexists s₂ (dir ++ sp ++ [n]) = false := by
+          rw [← hex]; unfold lexists; rw [if_neg ha0, hfa]; rfl
+        have h2 : dryRunRenamerWith true s₂ dir ⟨false, sp ++ [n]⟩ ⟨false, sp ++ [m]⟩ ov = (s₂, some .notFound) := by
+          unfold dryRunRenamerWith
+          simp only [hkey m hm, hkey n hn]
+          rw [if_neg (by rw [hd1]; simp), if_neg (by rw [hd2]; simp)]
+          unfold vexists at hsrc
+          rw [if_pos (by rw [hsrc]; rfl)]
+        rw [h2]
+        exact ⟨hS, errSim_notFound⟩
+      | some ea =>
+        have hka : ea.kind ≠ .dir := by
+          intro hk
+          have := hdirs (dir ++ sp ++ [n])
+          rw [hna] at this
+          unfold isDirAt at this
+          rw [if_neg ha0, hfa] at this
+          simp [hk] at this
+        have hpd : isDirAt s₁.fs (dir ++ sp ++ [m]).dropLast = true := by
+          rw [List.dropLast_concat, hdirs]
+          have := hanc sp.length (Nat.le_refl _)
+          simpa using this
+        have hbd : isDirAt s₁.fs (dir ++ sp ++ [m]) = false := by rw [hdirs]; exact hnb
+        obtain ⟨fs', hren, hw', hmem⟩ := renameAbs_leaf hw hfa hka hab (by simp) hpd hbd
+        rw [hren]
+        simp only
+        have hsrc : vexists s₂ (dir ++ sp ++ [n]) = true := by
+          rw [← hex]; unfold lexists; rw [if_neg ha0, hfa]; rfl
+        have hdry : (dryRunRenamerWith true s₂ dir ⟨false, sp ++ [n]⟩ ⟨false, sp ++ [m]⟩ ov).2 = none := by
+          unfold dryRunRenamerWith
+          simp only [hkey m hm, hkey n hn]
+          rw [if_neg (by rw [hd1]; simp), if_neg (by rw [hd2]; simp)]
+          unfold vexists at hsrc
+          rw [if_neg (by rw [hsrc]; simp)]
+        have heff := dry_call_effect true s₂ dir ⟨false, sp ++ [n]⟩ ⟨false, sp ++ [m]⟩ ov hdry
+          (by rw [hkey n hn, hkey m hm]; exact hab)
+        have hbase := C04.dry_call_base true s₂ dir ⟨false, sp ++ [n]⟩ ⟨false, sp ++ [m]⟩ ov
+        rw [hkey n hn, hkey m hm] at heff
+        simp only at heff
+        obtain ⟨hvb, hva, hvo⟩ := heff
+        have hamem := find_some_mem hfa
+        refine ⟨⟨by rw [hbase]; exact hb, rfl, hw', ?_, hl2, ?_, ?_⟩, by rw [hdry]; trivial⟩
+        · -- no links
+          intro e he t
+          rcases (hmem e).mp he with rfl | ⟨he, _, _⟩
+          · exact hl1 ea hamem.1 t
+          · exact hl1 e he t
+        · -- the directories are unchanged
+          intro p
+          rw [← hdirs p, Bool.eq_iff_iff, isDirAt_iff hw'.1, isDirAt_iff hw.1]
+          constructor
+          · rintro (h | ⟨d, hd, hdp, hdk⟩)
+            · exact Or.inl h
+            · rcases (hmem d).mp hd with rfl | ⟨hd, _, _⟩
+              · exact absurd hdk hka
+              · exact Or.inr ⟨d, hd, hdp, hdk⟩
+          · rintro (h | ⟨d, hd, hdp, hdk⟩)
+            · exact Or.inl h
+            · right
+              refine ⟨d, (hmem d).mpr (Or.inr ⟨hd, ?_, ?_⟩), hdp, hdk⟩
+              · intro h
+                have := nodup_find hw.1 hd
+                rw [h, hfa] at this
+                rw [← Option.some.inj this] at hdk
+                exact hka hdk
+              · intro h
+                have : isDirAt s₁.fs (dir ++ sp ++ [m]) = true := (isDirAt_iff hw.1 _).mpr (Or.inr ⟨d, hd, h, hdk⟩)
+                rw [hbd] at this; exact absurd this (by decide)
+        · -- existence
+          intro p
+          by_cases hpb : p = dir ++ sp ++ [m]
+          · rw [hpb, hvb]
+            exact (lexists_iff _).mpr (Or.inr ⟨{ ea with path := dir ++ sp ++ [m] }, (hmem _).mpr (Or.inl rfl), rfl⟩)
+          · by_cases hpa : p = dir ++ sp ++ [n]
+            · rw [hpa, hva]
+              rw [Bool.eq_false_iff]
+              intro h
+              rcases (lexists_iff _).mp h with h | ⟨d, hd, hdp⟩
+              · exact ha0 h
+              · rcases (hmem d).mp hd with rfl | ⟨_, hne, _⟩
+                · exact hab hdp.symm
+                · exact hne hdp
+            · rw [hvo p hpa hpb, ← hex p, Bool.eq_iff_iff, lexists_iff, lexists_iff]
+              constructor
+              · rintro (h | ⟨d, hd, hdp⟩)
+                · exact Or.inl h
+                · rcases (hmem d).mp hd with rfl | ⟨hd, _, _⟩
+                  · exact absurd hdp.symm hpb
+                  · exact Or.inr ⟨d, hd, hdp⟩
+              · rintro (h | ⟨d, hd, hdp⟩)
+                · exact Or.inl h
+                · exact Or.inr ⟨d, (hmem d).mpr (Or.inr ⟨hd, by rw [hdp]; exact hpa, by rw [hdp]; exact hpb⟩), hdp⟩
+
+/-- **C05, name mode**: on a link-free tree, for every file list, plan, processing order, strategy and
+    scripted stop/ignore/override answers — free, colliding, chained and cyclic plans alike — whose calls have
+    the name-mode shape (`NameCall`: plain names within one directory, neither source nor destination a
+    directory), the dry run reports exactly the renames the real run performs, in the same order, with the
+    same override markers, and ends with the same outcome (hence exit status). -/
+theorem dry_run_predicts_name_mode (base : FS) (hw : WF base) (hl : LinkFree base)
+    (files : List FileRec) (gen : Nat → Gen) (strategy : Strategy) (answers : List Answer)
+    (hplan : ∀ f ∈ files, ∀ j p, gen j = .path p → p ≠ f.rel → NameCall base f.inputDir f.rel p)
+    (hnocustom : ∀ q, Answer.custom q ∉ answers) :
+    (execute realNameRenamer { fs := base } files gen strategy answers).1.events =
+      (execute dryRenamer { base := base } files gen strategy answers).1.events ∧
+    (execute realNameRenamer { fs := base } files gen strategy answers).2 =
+      (execute dryRenamer { base := base } files gen strategy answers).2 := by
+  have h0 : NameSim base { fs := base } { base := base } :=
+    ⟨rfl, rfl, hw, hl, hl, fun _ => rfl, fun p => by simp [vexists]⟩
+  have := runs_agree_on (name_mode_simulation base) _ _ h0 files gen strategy answers hplan
+    (fun f _ q hq => absurd hq (hnocustom q))
+  exact ⟨this.1, this.2.1⟩
+
+/-- the hypotheses are satisfiable: two files of one directory, one to be renamed onto the other -/
+example :
+    let base : FS := [⟨["in".toList], 1, .dir, 0⟩, ⟨["in".toList, "a".toList], 2, .file, 1⟩,
+                      ⟨["in".toList, "b".toList], 3, .file, 2⟩]
+    NameCall base ["in".toList] ⟨false, ["a".toList]⟩ ⟨false, ["b".toList]⟩ ∧ LinkFree base := by
+  intro base
+  refine ⟨⟨[], "a".toList, "b".toList, rfl, rfl, by decide, by decide, by decide, by simp, ?_, by decide, by decide⟩, ?_⟩
+  · intro k hk
+    have : k = 0 := by simpa using hk
+    subst this; decide
+  · intro e he t
+    simp only [base, List.mem_cons, List.not_mem_nil, or_false] at he
+    rcases he with rfl | rfl | rfl <;> simp
 
 end C05
 end Tempren
